@@ -344,11 +344,27 @@ fn prim_domain(tier: Tier) -> PrimDom {
     let f32a: Vec<u128> = alpha::f32_alphabet(tier).into_iter().map(|x| x as u128).collect();
     let f64a: Vec<u128> = alpha::f64_alphabet(tier).into_iter().map(|x| x as u128).collect();
     let (s32, s64) = match tier {
-        Tier::Quick => (13, 127),
-        Tier::Thorough => (3, 13),
+        Tier::Quick => (25, 251),
+        Tier::Thorough => (5, 25),
     };
-    cmp.push(f32a.iter().cloned().step_by(s32).collect());
-    cmp.push(f64a.iter().cloned().step_by(s64).collect());
+    // comparisons use a thinned alphabet, but never without the special values
+    let special32: Vec<u128> = [0u32, 1, 0x7fffff, 0x800000, 0x3f800000, 0x7f7fffff, 0x7f800000, 0x7f800001, 0x7fc00000, 0x7fffffff].iter().flat_map(|&b| [b as u128, (b | 0x8000_0000) as u128]).collect();
+    let special64: Vec<u128> = [0u64, 1, 0xfffffffffffff, 0x10000000000000, 0x3ff0000000000000, 0x7fefffffffffffff, 0x7ff0000000000000, 0x7ff0000000000001, 0x7ff8000000000000, 0x7fffffffffffffff].iter().flat_map(|&b| [b as u128, (b | 1 << 63) as u128]).collect();
+    let thin = |all: &Vec<u128>, special: &Vec<u128>, step: usize| -> Vec<u128> {
+        let mut v = special.clone();
+        let seen: std::collections::HashSet<u128> = v.iter().cloned().collect();
+        // both signs of every step-th magnitude
+        for ch in all.chunks(2).step_by(step) {
+            for &x in ch {
+                if !seen.contains(&x) {
+                    v.push(x);
+                }
+            }
+        }
+        v
+    };
+    cmp.push(thin(&f32a, &special32, s32));
+    cmp.push(thin(&f64a, &special64, s64));
     conv.push(f32a);
     conv.push(f64a);
     PrimDom { conv, cmp }
